@@ -99,3 +99,37 @@ def programs():
 
 
 INPUTS = [('0', '0'), ('1', '0'), ('3', '0'), ('0', '1'), ('1', '1'), ('7', '1')]
+
+
+# Programs that break a flavour/context rule so that a defeat-capable construct sits where nothing can avert
+# or catch it.  hidc must reject every one of them; if a (changed) compiler accepts one, C03 still applies to it
+# ("every accepted program ... never halts"), so it is run.
+PICK = "int !pick(int k) { write('k'); if (k == 1) { !is_defeat(); } return k + 1; }\n"
+ILLEGAL_IF_ACCEPTED = [
+    ('defeat_expr_in_stop_handler_decl', "empty @is_you(int x, int y) { try { write('t'); !truth_is_defeat(x == 1); } stop { int v = !pick(y); write(v); } writeln(); }"),
+    ('defeat_expr_in_stop_handler_if', "empty @is_you(int x, int y) { try { write('t'); !truth_is_defeat(x == 1); } stop { if (!pick(y) > 0) { write('g'); } } writeln(); }"),
+    ('defeat_expr_in_stop_handler_write', "empty @is_you(int x, int y) { try { write('t'); !truth_is_defeat(x == 1); } stop { write(!pick(y)); } writeln(); }"),
+    ('defeat_expr_in_undo_handler', "empty @is_you(int x, int y) { try { write('t'); !truth_is_defeat(x == 1); } undo { int v = !pick(y); write(v); } writeln(); }"),
+    ('defeat_stmt_in_stop_handler', "empty @is_you(int x, int y) { try { write('t'); !truth_is_defeat(x == 1); } stop { !truth_is_defeat(y == 1); write('h'); } writeln(); }"),
+    ('defeat_stmt_in_undo_handler', "empty @is_you(int x, int y) { try { write('t'); !truth_is_defeat(x == 1); } undo { !pick(y); write('h'); } writeln(); }"),
+    ('is_defeat_in_handler', "empty @is_you(int x, int y) { try { write('t'); !truth_is_defeat(x == 1); } stop { if (y == 1) { !is_defeat(); } } writeln(); }"),
+    ('preempt_in_handler', "empty @is_you(int x, int y) { try { write('t'); !truth_is_defeat(x == 1); } stop { preempt { write('p'); } !truth_is_defeat(y == 1); } writeln(); }"),
+    ('defeat_in_you_outside_try', "empty @is_you(int x, int y) { int v = !pick(y); write(v); writeln(); }"),
+    ('defeat_stmt_in_you_outside_try', "empty @is_you(int x, int y) { !truth_is_defeat(y == 1); writeln(); }"),
+    ('defeat_in_ordinary_function', "int plain(int k) { return !pick(k); } empty @is_you(int x, int y) { write(plain(y)); writeln(); }"),
+    ('defeat_stmt_in_ordinary_function', "empty plain(int k) { !truth_is_defeat(k == 1); } empty @is_you(int x, int y) { plain(y); writeln(); }"),
+    ('preempt_in_you_outside_try', "empty @is_you(int x, int y) { preempt { write('p'); } writeln(); }"),
+    ('preempt_in_ordinary_function', "empty plain(int k) { preempt { write('p'); } } empty @is_you(int x, int y) { plain(y); writeln(); }"),
+    ('defeat_in_spec_left', "empty @is_you(int x, int y) { write(!pick(y) ?? 0); writeln(); }"),
+    ('defeat_in_spec_right', "empty @is_you(int x, int y) { write(x ?? !pick(y)); writeln(); }"),
+    ('defeat_in_global_init', "int g = !pick(1); empty @is_you(int x, int y) { write(g); writeln(); }"),
+    ('defeat_after_try', "empty @is_you(int x, int y) { try { write('t'); } undo { write('u'); } !truth_is_defeat(y == 1); writeln(); }"),
+    ('defeat_in_you_helper', "empty @h(int k) { !truth_is_defeat(k == 1); } empty @is_you(int x, int y) { @h(y); writeln(); }"),
+    ('defeat_in_loop_in_you', "empty @is_you(int x, int y) { for (int i = 0; i < 2; i += 1) { !truth_is_defeat(y == i); } writeln(); }"),
+    ('defeat_in_handler_of_try_in_loop', "empty @is_you(int x, int y) { for (int i = 0; i < 2; i += 1) { try { !truth_is_defeat(x == i); } stop { write(!pick(y)); } } writeln(); }"),
+]
+
+
+def illegal_programs():
+    for tag, body in ILLEGAL_IF_ACCEPTED:
+        yield tag, PICK + body + "\n"
